@@ -25,6 +25,7 @@ inductive StopRule where
   | sd (thr : Rat)
   | rilling (sd1 sd2 tol : Rat)
   | fixed
+  deriving DecidableEq
 
 structure ImfOpts where
   stop : StopRule
